@@ -61,6 +61,12 @@ func (s *Stats) Merge(o *Stats) {
 		s.Features[k] += v
 	}
 	for k, v := range o.Observed {
+		if strings.HasPrefix(k, "max_") {
+			if v > s.Observed[k] {
+				s.Observed[k] = v
+			}
+			continue
+		}
 		s.Observed[k] += v
 	}
 	for k, v := range o.Skipped {
@@ -205,7 +211,7 @@ type Property struct {
 	// Race requests the -race build of the child.
 	Race bool
 	// ChildEnv adds environment variables for children.
-	ChildEnv func(tier string) []string
+	ChildEnv func(tier, runDir string) []string
 	// MaxShards caps the number of child processes (0 = number of CPUs).
 	MaxShards int
 	// Post runs in the parent after all children finished (offline checkers,
